@@ -222,7 +222,42 @@ func mutate(r *gen.Rand, seeds []string, other []string) string {
 	b := []byte(s)
 	n := 1 + r.Intn(4)
 	for k := 0; k < n; k++ {
-		switch r.Intn(14) {
+		switch r.Intn(16) {
+		case 14, 15: // a multi-line comment (legal or not) at some indent, whose continuation lines are indented more, less,
+			// not at all, are blank, or hold FEWER white-space characters than the common indent (re-indentation of legal comments)
+			ws := func(n int) string {
+				if r.Chance(1, 4) {
+					return strings.Repeat("\t", n)
+				}
+				if r.Chance(1, 8) {
+					return strings.Repeat(" \t", (n+1)/2)
+				}
+				return strings.Repeat(" ", n)
+			}
+			indent := r.Intn(9)
+			nl := []string{"\n", "\n", "\r\n", "\u2028"}[r.Intn(4)]
+			var sb strings.Builder
+			sb.WriteString(nl + ws(indent) + []string{"/*!", "/*! legal", "/* @license", "/** @preserve", "/*", "/**", "//! a\n" + ws(indent) + "/*!"}[r.Intn(7)])
+			lines := 1 + r.Intn(5)
+			for l := 0; l < lines; l++ {
+				sb.WriteString(nl)
+				switch r.Intn(6) {
+				case 0: // blank
+				case 1: // white space only, shorter than the indent
+					if indent > 0 {
+						sb.WriteString(ws(r.Intn(indent)))
+					}
+				case 2: // white space only, longer
+					sb.WriteString(ws(indent + r.Intn(3)))
+				case 3: // text at a smaller indent
+					sb.WriteString(ws(r.Intn(indent+1)) + "* less")
+				default:
+					sb.WriteString(ws(indent+r.Intn(3)) + " * text " + []string{"", "\u00e9", "*/ /*!", "@license"}[r.Intn(4)])
+				}
+			}
+			sb.WriteString(nl + ws(r.Intn(indent+2)) + "*/" + nl)
+			i := r.Intn(len(b) + 1)
+			b = append(b[:i:i], append([]byte(sb.String()), b[i:]...)...)
 		case 0: // flip a byte
 			if len(b) > 0 {
 				b[r.Intn(len(b))] ^= byte(1 << uint(r.Intn(8)))
@@ -492,7 +527,7 @@ func runFuzzBatch(cases []fuzzCase, workdir string, rep *Report) {
 
 func init() {
 	searches["c16-fuzz"] = func(r *gen.Rand, count int, workdir string, rep *Report) {
-		rep.Rule = "byte strings made by 1-4 structure-aware mutations (bit flips, slice deletion/duplication, token insertion from a 170-token dictionary incl. NUL, invalid UTF-8, line separators, unterminated comments/templates, huge numbers and escapes; truncation; splicing of two seeds; nesting 50-12000 deep of 23 bracket kinds incl. CSS nesting and :is(); runs of one byte up to 30000; source-map comments with malformed and sectioned payloads) of every Go string literal in the repository's js/ts/css/json parser, lexer and printer tests; x loaders {js,jsx,ts,tsx,css,local-css,json} x 18 JS / 8 CSS option sets as transforms, and as bundles next to mutated package.json/tsconfig.json/dependencies. Each case runs in a worker process (6 GB address space; 12 s of CPU time or 60 s of wall clock per case); violations: escaped panic, reported internal error/recovered panic, hang, dead worker, > 5 s (the smaller of wall clock and CPU time; a slow or hanging case is measured a second time alone in a fresh worker and counts only if slow both times, so that machine load and the garbage of earlier cases do not count). non-trivial = the case completed with ordinary output or diagnostics"
+		rep.Rule = "byte strings made by 1-4 structure-aware mutations (bit flips, slice deletion/duplication, token insertion from a 170-token dictionary incl. NUL, invalid UTF-8, line separators, unterminated comments/templates, huge numbers and escapes; truncation; splicing of two seeds; nesting 50-12000 deep of 23 bracket kinds incl. CSS nesting and :is(); runs of one byte up to 30000; source-map comments with malformed and sectioned payloads; multi-line legal and ordinary comments at indents 0-8 with blank, short-blank, over- and under-indented continuation lines, LF/CRLF/U+2028) of every Go string literal in the repository's js/ts/css/json parser, lexer and printer tests; x loaders {js,jsx,ts,tsx,css,local-css,json} x 18 JS / 8 CSS option sets as transforms, and as bundles next to mutated package.json/tsconfig.json/dependencies. Each case runs in a worker process (6 GB address space; 12 s of CPU time or 60 s of wall clock per case); violations: escaped panic, reported internal error/recovered panic, hang, dead worker, > 5 s (the smaller of wall clock and CPU time; a slow or hanging case is measured a second time alone in a fresh worker and counts only if slow both times, so that machine load and the garbage of earlier cases do not count). non-trivial = the case completed with ordinary output or diagnostics"
 		os.MkdirAll(workdir, 0755)
 		corpus := loadCorpus()
 		rep.Distribution["corpus:js"] = len(corpus.js)
